@@ -260,6 +260,28 @@ def one(case, acc):
         counts = [c[1] for c in book.calls]
         if counts != sorted(counts) or any(not c[2] for c in book.calls):
             return v('callback-state-dictionary-wrong', 'callback log %r' % (book.calls[:8],))
+        # event_count = number of events handled before this one: prompt #i is event #i (one event per prompt,
+        # whoever answers it), ticks and the EOF event follow consecutively
+        exp_counts = []
+        nprompt_events = 0
+        for i, ev in enumerate(case['events']):
+            if case['stop_at'] is not None and i > case['stop_at']:
+                break
+            ov = case['overlap']
+            answered_by_overlap = bool(ov and ov['before'] <= i and ov['pat'] == ev['pat'][:-1])
+            if not answered_by_overlap and ev['kind'] != 'str':
+                exp_counts.append(i)
+            nprompt_events = i + 1
+        tail_calls = [c for c in book.calls if c[0] in ('tick', 'eof-true', 'eof-none')]
+        head_calls = [c for c in book.calls if c[0] not in ('tick', 'eof-true', 'eof-none')]
+        if [c[1] for c in head_calls] != exp_counts[:len(head_calls)]:
+            return v('callback-event_count-wrong', 'callbacks saw event_count %r, expected %r' % (
+                [c[1] for c in head_calls], exp_counts))
+        if tail_calls and [c[1] for c in tail_calls] != list(range(tail_calls[0][1], tail_calls[0][1] + len(tail_calls))):
+            return v('callback-event_count-wrong', 'tick/EOF callbacks saw event_count %r' % ([c[1] for c in tail_calls],))
+        if tail_calls and tail_calls[0][1] != nprompt_events and case['stop_at'] is None:
+            return v('callback-event_count-wrong', 'first tick/EOF callback saw event_count %r after %d prompt events' % (
+                tail_calls[0][1], nprompt_events))
         # ---- exit status
         if case['withexitstatus'] and not stops_early:
             acc.count('exit_status_checks')
